@@ -165,3 +165,43 @@ def all_small_arrays(shape, values=(0, 1, 2)):
 
 def arr_json(a: np.ndarray):
     return [int(x) for x in np.ascontiguousarray(a).ravel()]
+
+
+def set_order_labels(rng, k=None, hi=48, deceptive=None):
+    """k distinct labels whose order after `list(set(...))` is NOT ascending (CPython iterates small-int sets in
+    hash-table order); `deceptive`: first and last element of that order are exactly k-1 apart although the set is
+    not a contiguous range (code that takes element 0 / -1 for min / max sees a fake contiguous block)"""
+    for _ in range(4000):
+        kk = k or rng.randint(3, 4)
+        S = rng.sample(range(1, hi), kk)
+        ls = list(set(S))
+        if ls == sorted(ls):
+            continue
+        dec = abs(ls[-1] - ls[0]) + 1 == len(ls) and sorted(ls) != list(range(min(ls), max(ls) + 1))
+        if deceptive is None or dec == deceptive:
+            return S, ls
+    return None
+
+
+def complementary_scene(rng, bits, ndim=2):
+    """a scene in a narrow unsigned dtype with a block pair and an *outlying* overlap voxel (further than the crop
+    padding from everything else) whose prediction and reference labels add up to 2^bits (sometimes 2^bits +- 1)"""
+    dt = {8: np.uint8, 16: np.uint16}[bits]
+    top = 2 ** bits
+    shape = tuple(rng.randint(14, 22) for _ in range(ndim))
+    pred, ref = np.zeros(shape, dt), np.zeros(shape, dt)
+    blk = tuple(slice(2, 7) for _ in range(ndim))
+    blk2 = (slice(3, 8),) + tuple(slice(2, 7) for _ in range(ndim - 1))
+    a = rng.randint(1, top - 1)
+    delta = rng.choice([0, 0, 0, 1, -1])
+    pa, ra = a, top - a + delta
+    if not (0 < ra < top) or ra == 3 or pa in (5, 6):
+        return None
+    ref[blk] = 3
+    pred[blk2] = 5
+    pos = tuple(n - 2 - rng.randint(0, 1) for n in shape)
+    pred[pos], ref[pos] = pa, ra
+    if rng.random() < 0.5:
+        pos2 = (pos[0] - 1,) + pos[1:]
+        pred[pos2], ref[pos2] = pa, ra
+    return pred, ref
